@@ -8,23 +8,27 @@ PROP = "C14"
 PROP_FILE = "PwVerif/Props/C14.lean"
 DRIVER = "Driver/C14.lean"
 THEOREMS = [
-    "C14_copy_io_atomic",
-    "C14_copy_io_atomic_partial",
-    "C14_copy_io_undo_witness",
-    "C14_copy_io_values_witness",
     "C14_replace_atomic",
-    "C14_replace_atomic_partial",
-    "C14_replace_link_witness",
-    "C14_replace_missing_link_witness",
-    "C14_replace_adopt_witness",
+    "C14_wf_replace_atomic",
+    "C14_copy_io_atomic",
+    "C14_copy_io_hard_structure",
+    "C14_copy_chan_atomic",
+    "C14_dag_atomic",
     "C14_inherits",
+    "C14_copy_io_atomic_partial",
+    "C14_replace_atomic_partial",
+    "C14_dag_atomic_partial",
     "C14_inherits_partial",
     "C14_inherits_order_witness",
-    "C14_dag_atomic",
-    "C14_dag_atomic_partial",
-    "C14_dag_order_witness",
-    "C14_wf_replace_atomic",
+    "C14_replace_link_witness",
+    "C14_replace_value_push_witness",
+    "C14_replace_missing_link_witness",
     "C14_wf_revert_witness",
+    "C14_replace_adopt_witness",
+    "C14_copy_io_undo_witness",
+    "C14_copy_chan_undo_witness",
+    "C14_copy_io_values_witness",
+    "C14_dag_order_witness",
 ]
 RULE = (
     "seeded structured generator: workflows and macros (optionally nested in a workflow) with 3-5 children, "
@@ -376,6 +380,7 @@ def run_impl(case):
     model += _admit_lines(w, admitted)
     obs, snaps = [], []
     stats: dict = {}
+    replaced: dict = {}
 
     def bump(k):
         stats[k] = stats.get(k, 0) + 1
@@ -445,12 +450,25 @@ def run_impl(case):
                     line = f"dag {ids[0]} S " + " ".join(map(str, start))
                     for n, us in ups:
                         line += f" U {n} " + " ".join(map(str, us))
+                if kind == "replace" and res == "ok":
+                    replaced[after["label"][ids[2]]] = type(args[2]).__name__
                 model.append(line)
                 obs += _fmt(w, res, after)
                 snaps.append({"op": op, "ids": ids, "res": res, "before": before, "after": after,
                               "comp_kind": _comp_kind(args[0]) if kind != "copyio" else "-"})
                 bump(f"op:{kind}")
                 bump(f"res:{kind}:{res}")
+            elif kind == "runcheck":
+                got = _run_outputs(args[0])
+                want = _reference_outputs(case, replaced)
+                snaps.append({"op": op, "ids": [], "res": "run", "before": {}, "after": {}, "comp_kind": "wf",
+                              "got": got, "want": want})
+                bump("op:runcheck")
+                s = _snapshot(w)
+                model += _admit_lines(w, admitted)
+                model += _sync_lines(w, s)
+                for p, st in s["starting"].items():
+                    model.append(f"start {p} " + " ".join(map(str, st)))
             else:
                 try:
                     if kind == "connect":
@@ -488,6 +506,35 @@ def run_impl(case):
     return {"obs": obs, "model": model, "snaps": snaps, "stats": stats, "chans": table, "order": w.order}
 
 
+def _run_outputs(wf):
+    try:
+        wf.run()
+    except Exception as e:  # noqa: BLE001
+        return "exc:" + type(e).__name__
+    return {f"{lab}.{k}": repr(c.value) for lab, n in wf.children.items() for k, c in n.outputs.items()}
+
+
+def _reference_outputs(case, replaced):
+    """the same graph built from scratch with the replacement classes in place (same connection order)"""
+    from pyiron_workflow import Workflow
+
+    from . import nodes_c14 as N
+
+    if case["top"] != "wf":
+        return None
+    wf = Workflow("ref", autoload=None)
+    try:
+        for label, cls in case["children"]:
+            wf.add_child(N.CLASSES[replaced.get(label, cls)](label=label))
+        for child, inp, value in case.get("vals", []):
+            wf.children[child].inputs[inp].value = value
+        for src, out, dst, inp in case.get("data", []):
+            wf.children[dst].inputs[inp].connect(wf.children[src].outputs[out])
+    except Exception as e:  # noqa: BLE001
+        return "exc:" + type(e).__name__
+    return _run_outputs(wf)
+
+
 def _comp_kind(n):
     from pyiron_workflow.workflow import Workflow
 
@@ -500,6 +547,8 @@ def model_input(case, impl=None):
 
 def nontrivial(case, r):
     for s in r.get("snaps", []):
+        if s["res"] == "run":
+            continue
         if s["before"] != s["after"] or s["res"] != "ok":
             return True
     return False
@@ -567,6 +616,13 @@ def oracle(case, r):
     for k, s in enumerate(r["snaps"]):
         op, res, b, a = s["op"], s["res"], s["before"], s["after"]
         kind = op[0]
+        if kind == "runcheck":
+            if isinstance(s["got"], dict) and isinstance(s["want"], dict) and s["got"] != s["want"]:
+                diff = {k: (s["want"].get(k), s["got"].get(k)) for k in s["want"] if s["want"].get(k) != s["got"].get(k)}
+                fails.append({"clause": "run-result", "detail": f"op #{k}: run after the replacement differs from the graph "
+                              f"built afresh with the replacement in place: {diff}",
+                              "signature": {"clause": "run-result", "trigger": "replace"}})
+            continue
         if res != "ok":
             extra = [s["ids"][0]] if kind == "copyio" else []
             delta = _atomic_delta(r, s, extra)
@@ -633,8 +689,6 @@ def oracle(case, r):
         for n in range(len(b["label"])):
             if n not in (old, new) and (a["label"][n] != b["label"][n] or a["parent"][n] != b["parent"][n]):
                 fails.append(_f("bystander", k, op, f"node {n} changed", sig))
-        if fails:
-            break
     return fails
 
 
@@ -709,6 +763,25 @@ def _wf_case(rng, tier):
         else:
             me, other = rng.choice(labs + [c[0] for c in case["cands"]]), rng.choice(labs)
             ops.append(["copyio", me, other, rng.random() < 0.7, rng.random() < 0.4])
+    return case
+
+
+def _run_case(rng, tier):
+    """untyped term nodes only, replacement with the same interface, then run and compare with a fresh build"""
+    n = rng.randint(3, 5)
+    children = [[LABELS[i], "Pxy"] for i in range(n)]
+    data = []
+    for j in range(1, n):
+        for inp in ("x", "y"):
+            for i in rng.sample(range(j), min(rng.choice([0, 1, 2, 3]), j)):
+                data.append([LABELS[i], "o", LABELS[j], inp])
+    rng.shuffle(data)
+    case = {"top": "wf", "children": children, "data": data, "prewire": rng.random() < 0.5,
+            "cands": [["r0", "Qxy"], ["r1", "Pxy"]], "ops": []}
+    case["ops"].append(["replace", "@wf", rng.choice(LABELS[:n]), rng.choice(["r0", "r1"])])
+    if rng.random() < 0.3:
+        case["ops"].append(["replace", "@wf", rng.choice(LABELS[:n]), "r1" if case["ops"][0][3] == "r0" else "r0"])
+    case["ops"].append(["runcheck", "@wf"])
     return case
 
 
@@ -793,9 +866,12 @@ def _maps_case(rng, tier):
     data = [["a", "o", "c", "x"], ["b", "o", "c", "x"]]
     keys = ["a__x", "a__y", "b__x", "b__y", "b__z", "c__y", "b__o", "b__p", "c__o"]
     ins = []
-    for _ in range(rng.randint(1, 2)):
+    if rng.random() < 0.4:
+        ins.append(["b__z", rng.choice(["a__x", "c__y"])])
+    for _ in range(rng.randint(0, 2)):
         k = rng.choice([k for k in keys if not k.endswith("o") and not k.endswith("p")])
-        ins.append([k, rng.choice(["a__x", "c__y", "foo", None])])
+        if k not in [i[0] for i in ins]:
+            ins.append([k, rng.choice(["a__x", "c__y", "foo", None])])
     outs = [[rng.choice(["b__o", "b__p", "c__o"]), rng.choice(["c__o", "bar", None])]] if rng.random() < 0.5 else []
     case = {"top": "wf", "children": children, "data": data, "maps": {"in": ins, "out": outs},
             "cands": [["r0", "Pxyz"], ["r1", "PxyOP"], ["r2", "Qxy"]], "ops": []}
@@ -815,6 +891,8 @@ def gen_cases(rng, tier):
         yield _dag_case(rng, tier)
     for _ in range(20 if quick else 400):
         yield _maps_case(rng, tier)
+    for _ in range(40 if quick else 800):
+        yield _run_case(rng, tier)
     if not quick:
         yield from _exhaustive()
     for lines in (["frobnicate 1 2", "replace 0 1", "copyio 0 1 2 3", "dag x"], ["cfg 1 1", "replace a b c", "dag 0 T 1"]):
@@ -856,6 +934,9 @@ def corpus():
     yield {"top": "wf", "children": [["a", "Pxy"], ["b", "Pxy"], ["d", "Pxy"]],
            "data": [["a", "o", "d", "x"], ["b", "o", "d", "x"]],
            "cands": [["r0", "Qxy"]], "ops": [["replace", "@wf", "d", "r0"]]}
+    yield {"top": "wf", "children": [["a", "Pxy"], ["b", "Pxy"], ["c", "Pxy"]],
+           "data": [["a", "o", "c", "x"], ["b", "o", "c", "x"]],
+           "cands": [["r0", "Qxy"]], "ops": [["replace", "@wf", "a", "r0"], ["runcheck", "@wf"]]}
     # D2: the macro's own IO hint rejects the replacement after the swap (outbound, inbound)
     yield {"top": "macro", "mac": "MacT", "children": [["a", "Ixy"], ["b", "Ixy"]], "data": [["a", "o", "b", "x"]],
            "uses": {"p": [["a", "x"]]}, "returns": [["b", "o"], ["a", "o"]], "cands": [["r0", "IxyS"]],
